@@ -3,8 +3,11 @@ package vc
 import (
 	"fmt"
 	"go/constant"
+	"go/token"
 	"go/types"
 	"math/big"
+	"regexp"
+	"sort"
 	"strings"
 
 	"gocv/spec"
@@ -182,6 +185,72 @@ func (f *frame) resolveLocal(name string, e *Env) (SV, bool) {
 					return SV{T: t, Ty: ph.Type()}, true
 				}
 			}
+		}
+	}
+	// rangeoverN: the slice (or map) that the range loop with ordinal N iterates over -- also when
+	// it is the unnamed result of a call
+	if strings.HasPrefix(name, "rangeover") && len(name) > len("rangeover") {
+		var n int
+		if _, err := fmt.Sscanf(name[len("rangeover"):], "%d", &n); err == nil {
+			for _, li := range f.loops {
+				if li.ordinal != n {
+					continue
+				}
+				for _, in := range li.header.Instrs {
+					switch x := in.(type) {
+					case *ssa.BinOp:
+						// idx+1 < len(X)
+						if x.Op != token.LSS {
+							continue
+						}
+						if c, ok := x.Y.(*ssa.Call); ok {
+							if bi, ok := c.Call.Value.(*ssa.Builtin); ok && bi.Name() == "len" && len(c.Call.Args) == 1 {
+								if _, ok := c.Call.Args[0].Type().Underlying().(*types.Slice); ok {
+									if t, ok := f.vals[c.Call.Args[0]]; ok {
+										return SV{T: t, Ty: c.Call.Args[0].Type()}, true
+									}
+								}
+							}
+						}
+					case *ssa.Next:
+						if r, ok := x.Iter.(*ssa.Range); ok {
+							if t, ok := f.vals[r.X]; ok {
+								return SV{T: t, Ty: r.X.Type()}, true
+							}
+						}
+					}
+				}
+			}
+			return SV{}, false
+		}
+	}
+	// rangeindexN: the index of the range loop with ordinal N (an enclosing loop, or the loop itself)
+	if strings.HasPrefix(name, "rangeindex") && len(name) > len("rangeindex") {
+		var n int
+		if _, err := fmt.Sscanf(name[len("rangeindex"):], "%d", &n); err == nil {
+			for _, li := range f.loops {
+				if li.ordinal != n {
+					continue
+				}
+				for _, in := range li.header.Instrs {
+					ph, ok := in.(*ssa.Phi)
+					if !ok {
+						break
+					}
+					if ph.Comment != "rangeindex" {
+						continue
+					}
+					if e.li == li && e.phis != nil {
+						if t, ok := e.phis[ph]; ok {
+							return SV{T: t, Ty: ph.Type()}, true
+						}
+					}
+					if t, ok := f.vals[ph]; ok {
+						return SV{T: t, Ty: ph.Type()}, true
+					}
+				}
+			}
+			return SV{}, false
 		}
 	}
 	refs := f.dbg[name]
@@ -659,6 +728,57 @@ func (e *Env) evalQuant(n *spec.Quant) (SV, error) {
 	vc := e.vc
 	vc.nfresh++
 	vn := fmt.Sprintf("q_%s_%d", sanitize(n.Var), vc.nfresh)
+	if c, ok := n.Lo.(*spec.Call); ok && c.Fun == "type" && n.Hi == nil {
+		// forall p in type("*pkg.T") :: body -- the bound variable ranges over all values of that Go type
+		if len(c.Args) != 1 {
+			return SV{}, fmt.Errorf("type() takes one type name")
+		}
+		sl, ok := c.Args[0].(*spec.StrLit)
+		if !ok {
+			return SV{}, fmt.Errorf("type() takes a string literal")
+		}
+		ty, err := e.lookupType(sl.Val)
+		if err != nil {
+			return SV{}, err
+		}
+		ks := vc.tt.sort(ty)
+		kv := Term{vn, ks}
+		inner := e.with(n.Var, SV{T: kv, Ty: ty})
+		body, err := inner.evalBool(n.Body)
+		if err != nil {
+			return SV{}, err
+		}
+		if n.Forall {
+			return SV{T: Term{fmt.Sprintf("(forall ((%s %s)) %s)", vn, ks, body.S), SBool}}, nil
+		}
+		return SV{T: Term{fmt.Sprintf("(exists ((%s %s)) %s)", vn, ks, body.S), SBool}}, nil
+	}
+	if c, ok := n.Lo.(*spec.Call); ok && c.Fun == "keys" && n.Hi == nil {
+		// the bound variable ranges over the keys present in a map (sort of the key type)
+		if len(c.Args) != 1 {
+			return SV{}, fmt.Errorf("keys() takes one map")
+		}
+		m, err := e.eval(c.Args[0])
+		if err != nil {
+			return SV{}, err
+		}
+		mt, ok := m.Ty.Underlying().(*types.Map)
+		if !ok {
+			return SV{}, fmt.Errorf("keys() of a non-map")
+		}
+		ks := vc.tt.sort(mt.Key())
+		kv := Term{vn, ks}
+		inner := e.with(n.Var, SV{T: kv, Ty: mt.Key()})
+		body, err := inner.evalBool(n.Body)
+		if err != nil {
+			return SV{}, err
+		}
+		rng := vc.mapHas(e.state(), mt, m.T, kv)
+		if n.Forall {
+			return SV{T: Term{fmt.Sprintf("(forall ((%s %s)) %s)", vn, ks, Implies(rng, body).S), SBool}}, nil
+		}
+		return SV{T: Term{fmt.Sprintf("(exists ((%s %s)) %s)", vn, ks, And(rng, body).S), SBool}}, nil
+	}
 	inner := e.with(n.Var, SV{T: Term{vn, SInt}})
 	body, err := inner.evalBool(n.Body)
 	if err != nil {
@@ -798,6 +918,37 @@ func (e *Env) evalCall(n *spec.Call) (SV, error) {
 			return SV{}, fmt.Errorf("wf() of untyped value")
 		}
 		return SV{T: vc.tt.wf(v.Ty, v.T, e.state().Alloc)}, nil
+	case "ufslice":
+		// ufslice("ElemType", "name", args...): an uninterpreted function returning a slice of that
+		// element type (e.g. the list an abstract store holds for a key)
+		if len(n.Args) < 2 {
+			return SV{}, fmt.Errorf("ufslice needs an element type and a name")
+		}
+		ts, ok1 := n.Args[0].(*spec.StrLit)
+		ns, ok2 := n.Args[1].(*spec.StrLit)
+		if !ok1 || !ok2 {
+			return SV{}, fmt.Errorf("ufslice needs string literals for the element type and the name")
+		}
+		et, err := e.lookupType(ts.Val)
+		if err != nil {
+			return SV{}, err
+		}
+		var as []Term
+		var sorts []string
+		for i := 2; i < len(n.Args); i++ {
+			a, err := arg(i)
+			if err != nil {
+				return SV{}, err
+			}
+			as = append(as, a.T)
+			sorts = append(sorts, a.T.Sort)
+		}
+		key := "ufs_" + sanitize(ns.Val)
+		if !vc.heapDecl["uf:"+key] {
+			vc.heapDecl["uf:"+key] = true
+			vc.cmd(fmt.Sprintf("(declare-fun %s (%s) %s)", key, strings.Join(sorts, " "), SSlice))
+		}
+		return SV{T: Term{app(key, as...), SSlice}, Ty: types.NewSlice(et)}, nil
 	case "inst":
 		// inst(p): p is nil or the start of an instance of its struct type (see tyStart)
 		v, err := arg(0)
@@ -915,6 +1066,9 @@ func (e *Env) evalCall(n *spec.Call) (SV, error) {
 	if m, ok := vc.P.Macros[n.Fun]; ok {
 		if len(m.Params) != len(n.Args) {
 			return SV{}, fmt.Errorf("macro %s expects %d arguments", n.Fun, len(m.Params))
+		}
+		if m.Opaque {
+			return e.evalOpaque(m, n)
 		}
 		if e.depth > 20 {
 			return SV{}, fmt.Errorf("macro recursion too deep at %s", n.Fun)
@@ -1237,4 +1391,116 @@ func sumShape(body, ph string) string {
 		i++
 	}
 	return sb.String()
+}
+
+// ---- opaque spec functions ----
+//
+// `//@ opaque f(a, b) = body` is a spec function whose applications stay small: f becomes an SMT
+// function of its arguments and of the heap components its body reads.  A function under
+// verification that says `reveal f` gets the definition (define-fun); every other one sees an
+// uninterpreted symbol and can use only what contracts say about f.
+type opqInfo struct {
+	fn     string
+	heaps  []string // heap keys read by the body, sorted
+	alloc  bool
+	rsort  string
+	rty    types.Type
+}
+
+var opqHeapRe = regexp.MustCompile(`Hopq_[A-Za-z0-9_]+`)
+
+func (e *Env) evalOpaque(m *spec.Macro, n *spec.Call) (SV, error) {
+	vc := e.vc
+	var args []SV
+	for i := range n.Args {
+		a, err := e.eval(n.Args[i])
+		if err != nil {
+			return SV{}, err
+		}
+		args = append(args, a)
+	}
+	if vc.opq == nil {
+		vc.opq = map[string]*opqInfo{}
+	}
+	key := m.Name
+	for _, a := range args {
+		key += "|" + a.T.Sort
+	}
+	info := vc.opq[key]
+	if info == nil {
+		// evaluate the body once over placeholder heaps and placeholder arguments
+		st := &State{H: map[string]Term{}, Alloc: Term{"opq_alloc", SInt}, Base: &base{id: "opq"}}
+		names := map[string]SV{}
+		bound := map[string]bool{}
+		var params []string
+		for i, p := range m.Params {
+			pt := Term{fmt.Sprintf("opq_a%d", i), args[i].T.Sort}
+			names[p] = SV{T: pt, Ty: args[i].Ty}
+			bound[p] = true
+			params = append(params, fmt.Sprintf("(%s %s)", pt.S, pt.Sort))
+		}
+		inner := &Env{vc: vc, names: names, st: st, old: st, pkg: e.pkg, depth: e.depth + 1, bound: bound}
+		body, err := inner.eval(m.Body)
+		if err != nil {
+			return SV{}, fmt.Errorf("opaque %s: %v", m.Name, err)
+		}
+		seen := map[string]bool{}
+		for _, h := range opqHeapRe.FindAllString(body.T.S, -1) {
+			seen[h] = true
+		}
+		info = &opqInfo{fn: "opq_" + sanitize(m.Name) + fmt.Sprintf("_%d", len(vc.opq)), rsort: body.T.Sort, rty: body.Ty}
+		var hparams, hsorts []string
+		// heap keys: recover them from the state the evaluation filled in
+		var keys []string
+		for k := range st.H {
+			keys = append(keys, k)
+		}
+		for k := range vc.tt.kindSeen {
+			keys = append(keys, k)
+		}
+		sort.Strings(keys)
+		done := map[string]bool{}
+		for _, k := range keys {
+			if done[k] {
+				continue
+			}
+			done[k] = true
+			hn := "Hopq_" + sanitize(k)
+			if seen[hn] {
+				info.heaps = append(info.heaps, k)
+				hparams = append(hparams, fmt.Sprintf("(%s %s)", hn, heapKeySort(k)))
+				hsorts = append(hsorts, heapKeySort(k))
+				delete(seen, hn)
+			}
+		}
+		if len(seen) > 0 {
+			return SV{}, fmt.Errorf("opaque %s: cannot attribute heap placeholders %v", m.Name, seen)
+		}
+		if strings.Contains(body.T.S, "opq_alloc") {
+			info.alloc = true
+			hparams = append(hparams, "(opq_alloc Int)")
+			hsorts = append(hsorts, SInt)
+		}
+		var asorts []string
+		for _, a := range args {
+			asorts = append(asorts, a.T.Sort)
+		}
+		if vc.reveal[m.Name] {
+			vc.cmd(fmt.Sprintf("(define-fun %s (%s) %s %s)", info.fn, strings.Join(append(hparams, params...), " "), info.rsort, body.T.S))
+		} else {
+			vc.cmd(fmt.Sprintf("(declare-fun %s (%s) %s)", info.fn, strings.Join(append(hsorts, asorts...), " "), info.rsort))
+		}
+		vc.opq[key] = info
+	}
+	var ts []Term
+	for _, k := range info.heaps {
+		ts = append(ts, vc.heap(e.state(), k))
+	}
+	if info.alloc {
+		ts = append(ts, e.state().Alloc)
+	}
+	for _, a := range args {
+		ts = append(ts, a.T)
+	}
+	return SV{T: Term{app(info.fn, ts...), info.rsort}, Ty: info.rty}, nil
 }
